@@ -10,24 +10,3 @@ pub fn keys_vec<'a>(m: &'a HashMap<Locator, Transaction>) -> (r: Vec<&'a Locator
 {
     m.keys().collect()
 }
-// TRUSTED helper (site rewrite in get_breaches): `v.iter().map(|l| (*l, m[l].clone())).collect::<HashMap<_, _>>()`
-// (indexing panics on a missing key, hence the precondition)
-#[verifier::external_body]
-pub fn restrict_map(m: &HashMap<Locator, Transaction>, v: &Vec<Locator>) -> (r: HashMap<Locator, Transaction>)
-    requires forall|i: int| 0 <= i < v@.len() ==> m@.contains_key(#[trigger] v@[i]),
-    ensures
-        forall|l: Locator| #[trigger] r@.contains_key(l) <==> v@.contains(l),
-        forall|l: Locator| r@.contains_key(l) ==> #[trigger] r@[l] == m@[l],
-{
-    v.iter().map(|l| (*l, m[l].clone())).collect()
-}
-// TRUSTED helper (site rewrite in filtered_block_connected):
-// `txdata.iter().map(|(_, tx)| (Locator::new(tx.compute_txid()), (*tx).clone())).collect::<HashMap<_, _>>()`
-#[verifier::external_body]
-pub fn locator_tx_map_of(txdata: &Vec<(usize, Transaction)>) -> (r: HashMap<Locator, Transaction>)
-    ensures
-        forall|l: Locator| #[trigger] r@.contains_key(l) <==> exists|i: int| 0 <= i < txdata@.len() && locator_spec(txid_spec(#[trigger] txdata@[i].1)) == l,
-        forall|l: Locator| r@.contains_key(l) ==> exists|i: int| 0 <= i < txdata@.len() && #[trigger] txdata@[i].1 == r@[l] && locator_spec(txid_spec(txdata@[i].1)) == l,
-{
-    txdata.iter().map(|p| (Locator::new(p.1.compute_txid()), p.1.clone())).collect()
-}
